@@ -5,8 +5,8 @@ CONSTANTS
   R = 2
   MaxInst = 2
   NZ = 1
-  MaxReq = 2
-  NForeign = 1
+  MaxReq = 3
+  NForeign = 0
   CJ = TRUE
 INIT Init
 NEXT Next
